@@ -160,7 +160,23 @@ func c03Body(d c03Desc, tier string) func() {
 					err = conn.Call(live, "t.r.Echo", json.RawMessage(doc), &out)
 				} else {
 					var recv func(context.Context, interface{}) (uint64, error)
-					recv, err = conn.Send(live, "t.r.Echo", json.RawMessage(doc), 0)
+					// every second Send runs under a per-operation context that is finished (cancelled, or expired)
+					// as soon as Send has returned, the way a timeout helper around Send does; the receive function
+					// is governed by the context it is given
+					sctx := live
+					switch i % 8 {
+					case 3:
+						sctx = vnet.NewCtx("send-op")
+					case 7:
+						sctx = vnet.NewCtxDeadline("send-op-deadline")
+					}
+					recv, err = conn.Send(sctx, "t.r.Echo", json.RawMessage(doc), 0)
+					switch i % 8 {
+					case 3:
+						sctx.Cancel()
+					case 7:
+						sctx.Expire()
+					}
 					if err == nil {
 						var fl uint64
 						fl, err = recv(live, &out)
@@ -197,9 +213,16 @@ func c03Body(d c03Desc, tier string) func() {
 					}
 				}
 			}
-			for _, sq := range seqs {
+			for si, sq := range seqs {
 				echo.seq = sq
-				recv, err := conn.Send(live, "t.r.More", json.RawMessage(`{"q":1}`), varlink.More)
+				sctx := live
+				if si%2 == 1 {
+					sctx = vnet.NewCtx("send-op")
+				}
+				recv, err := conn.Send(sctx, "t.r.More", json.RawMessage(`{"q":1}`), varlink.More)
+				if sctx != live {
+					sctx.Cancel() // the Send is over; every reply of the sequence is still to be received under live
+				}
 				if err != nil {
 					fail("Send more: %v", err)
 					break
